@@ -34,8 +34,6 @@ SYMS = [(0x100 * (k + 1), 0x40, n) for k, n in enumerate(NAMES)]
 ADDR = [D.BASE + rel for rel, _, _ in SYMS]
 FN_OF_ADDR = {a: k for k, a in enumerate(ADDR)}
 FN_OF_NAME = {n: k for k, n in enumerate(NAMES)}
-ARGSPEC = {1: "ii", 2: "s"}        # alpha(arg1, arg2)   beta(arg1/s)
-RETSPEC = {1: "i", 3: "i"}         # alpha = retval      gamma = retval
 T0 = 2000
 HAVE_LUA = True
 F_ARGS = "F-C18-ARGS"
@@ -61,35 +59,275 @@ def fmt_unit(ns):
     return ("%3d.%03d %s" % (delta, small, units[idx])).strip()
 
 
-# ------------------------------------------------------------------ payloads
-def enc_payload(kind, vals):
-    """kind: 'ii' two 8-byte integers, 'i' one, 's' a string (2-byte length + bytes, 4-aligned)."""
-    if kind == "s":
-        b = struct.pack("<H", len(vals[0])) + vals[0].encode()
-        return b + b"\0" * ((-len(b)) % 4)
-    return b"".join(struct.pack("<q", v) for v in vals)
+# ------------------------------------------------------------------ argument specs, values, payload bytes
+# One spec = dict(kind, size, text[, fmt, name]); `text` is the suffix after argN / retval in the argspec string.
+#   int   /d /i /u /x /o with 8, 16, 32 or 64 bits (no suffix: /d, 8 bytes)      libmcount: ALIGN(size, 4) bytes
+#   chr   /c (1 byte)   flt /f32 /f64 /f80 and fpargN   ptr /p   enum /e:<type>   struct /t<size>[:<type>]
+#   str   /s   sstr /S  : 2-byte length + bytes, ALIGN(len + 2, 4); NULL = length 4 + ff ff ff ff
+CHARS = "abcxyzQ09_+-*/=<>()[]{}.:;!?@#$%^&~"
+STRCH = "abcdefxyz0189_"
 
 
-def rand_vals(rng, kind):
-    if kind == "s":
-        return ("".join(rng.choice("abcxyz") for _ in range(rng.randint(1, 9))),)
-    return tuple(rng.choice([0, 1, -1, 7, 42, -3, 99999, -100000, rng.randint(-5000, 5000)]) for _ in kind)
+def rand_spec(rng, oct_ok=False):
+    r = rng.random()
+    if r < 0.34:
+        fmt = rng.choice("diuxx" + ("o" if oct_ok else ""))
+        if oct_ok and rng.random() < 0.5:
+            fmt = "o"
+        bits = rng.choice([8, 16, 32, 64])
+        text = "" if (fmt == "d" and bits == 64 and rng.random() < 0.5) else "/%s%d" % (fmt, bits)
+        return {"kind": "int", "fmt": fmt, "size": bits // 8, "text": text}
+    if r < 0.52:
+        return {"kind": "str", "size": 0, "text": "/s"}
+    if r < 0.60:
+        return {"kind": "sstr", "size": 0, "text": "/S"}
+    if r < 0.68:
+        return {"kind": "chr", "size": 1, "text": "/c"}
+    if r < 0.80:
+        bits = rng.choice([32, 64, 80])
+        return {"kind": "flt", "size": bits // 8, "text": "/f%d" % bits}
+    if r < 0.86:
+        return {"kind": "ptr", "size": 8, "text": "/p"}
+    if r < 0.92:
+        return {"kind": "enum", "size": 8, "text": "/e:color"}
+    size = rng.choice([1, 3, 4, 8, 12, 16, 24])
+    name = rng.choice(["pair", "vec3", ""])
+    return {"kind": "struct", "size": size, "name": name, "text": "/t%d%s" % (size, (":" + name) if name else "")}
+
+
+def rand_value(rng, sp, lua):
+    k = sp["kind"]
+    if k == "int":
+        n = 8 * sp["size"]
+        v = rng.choice([0, 1, 7, (1 << n) - 1, 1 << (n - 1), (1 << (n - 1)) - 1, 200 % (1 << n), 100001 % (1 << n),
+                        rng.randrange(1 << n), rng.randrange(1 << n), rng.randrange(min(1 << n, 1000))])
+        if lua and n == 64 and not (v < (1 << 50) or v >= (1 << 64) - (1 << 50)):
+            v = rng.randrange(1 << 50)          # lua numbers are doubles
+        if sp["fmt"] == "d" and n == 64 and 0xffff0000 < v <= 0xffffffff:
+            v = 5                                # replay shows these as negative 32-bit numbers (heuristic)
+        return v
+    if k == "chr":
+        return rng.choice(CHARS)
+    if k in ("str", "sstr"):
+        if k == "str" and rng.random() < 0.08:
+            return None                          # NULL pointer
+        n = rng.choice([0, 1, 2, 2, 3, 4, 5, 6, 6, 7, 8, 9, 10, 10, 11, 14, 33])
+        s = "".join(rng.choice(STRCH) for _ in range(n))
+        return "nulL" if s == "NULL" else s
+    if k == "flt":
+        return rng.randint(-79999, 79999) / 8.0
+    if k == "ptr":
+        return rng.choice([0, ADDR[rng.randrange(NF)], 0x7f0012345678, rng.randrange(1 << 40) + (1 << 40)])
+    if k == "enum":
+        return rng.choice([0, 1, 2, 7, 1000, (1 << 64) - 1 if not lua else 3])
+    if k == "struct":
+        return bytes(rng.randrange(256) for _ in range(sp["size"])).hex()
+    raise ValueError(k)
+
+
+def f80_bytes(v):
+    if v == 0:
+        return b"\0" * 10
+    sign = 1 if v < 0 else 0
+    m, e = abs(v), 0
+    while m >= 2:
+        m /= 2
+        e += 1
+    while m < 1:
+        m *= 2
+        e -= 1
+    return struct.pack("<QH", int(m * (1 << 63)), (e + 16383) | (sign << 15))
+
+
+def al4(b):
+    return b + b"\0" * ((-len(b)) % 4)
+
+
+def enc_value(sp, v):
+    """the bytes libmcount's save_to_argbuf() writes for one value (record.c)"""
+    k = sp["kind"]
+    if k in ("int", "ptr", "enum"):
+        return al4((v % (1 << (8 * sp["size"]))).to_bytes(sp["size"], "little"))
+    if k == "chr":
+        return al4(v.encode())
+    if k in ("str", "sstr"):
+        raw = b"\xff\xff\xff\xff" if v is None else v.encode()
+        return al4(struct.pack("<H", len(raw)) + raw)
+    if k == "flt":
+        return al4({4: struct.pack("<f", v), 8: struct.pack("<d", v), 10: f80_bytes(v)}[sp["size"]])
+    if k == "struct":
+        return al4(bytes.fromhex(v))
+    raise ValueError(k)
+
+
+def enc_payload(specs, vals):
+    return b"".join(enc_value(sp, v) for sp, v in zip(specs, vals))
+
+
+# canonical value of one argument, from the three places it can be observed
+def canon_truth(sp, v):
+    k = sp["kind"]
+    if k == "int":
+        return ("int", v % (1 << (8 * sp["size"])))
+    if k in ("ptr", "enum"):
+        return ("int", v % (1 << 64))
+    if k == "chr":
+        return ("chr", v)
+    if k in ("str", "sstr"):
+        return ("str", "NULL" if v is None else v)
+    if k == "flt":
+        return ("flt", "%f" % v)
+    return ("struct", sp.get("name", ""))
+
+
+def canon_script_val(sp, x):
+    """x: the JSON value the script printed for this element"""
+    k = sp["kind"]
+    try:
+        if k in ("int", "ptr", "enum"):
+            if isinstance(x, bool) or not isinstance(x, (int, float)) or x != int(x):
+                return ("bad", repr(x))
+            return ("int", int(x) % (1 << (8 * (sp["size"] if k == "int" else 8))))
+        if k == "chr":
+            return ("chr", x) if isinstance(x, str) else ("bad", repr(x))
+        if k in ("str", "sstr"):
+            return ("str", x) if isinstance(x, str) else ("bad", repr(x))
+        if k == "flt":
+            return ("flt", "%f" % float(x)) if isinstance(x, (int, float)) and not isinstance(x, bool) else ("bad", repr(x))
+        m = re.match(r"^struct: (.*)\{\}$", x) if isinstance(x, str) else None
+        return ("struct", m.group(1)) if m else ("bad", repr(x))
+    except (ValueError, OverflowError, TypeError):
+        return ("bad", repr(x))
+
+
+def canon_replay_val(sp, tok):
+    """tok: the text replay printed for this element"""
+    k = sp["kind"]
+    try:
+        if k == "int":
+            if sp["fmt"] == "o":
+                v = int(tok, 8)
+            elif tok.startswith(("0x", "-0x")):
+                v = int(tok, 16)
+            else:
+                v = int(tok, 10)
+            return ("int", v % (1 << (8 * sp["size"])))
+        if k == "ptr":
+            if tok.startswith("&"):
+                return ("int", ADDR[FN_OF_NAME[tok[1:]]])
+            return ("int", int(tok, 16) if tok.startswith("0x") else int(tok))
+        if k == "enum":
+            return ("int", int(tok) % (1 << 64))
+        if k == "chr":
+            return ("chr", tok[1:-1]) if len(tok) >= 2 and tok[0] == tok[-1] == "'" else ("bad", tok)
+        if k in ("str", "sstr"):
+            if tok == "NULL":
+                return ("str", "NULL")
+            t = tok[:-1] if (k == "sstr" and tok.endswith('"s')) else tok
+            return ("str", t[1:-1]) if len(t) >= 2 and t[0] == t[-1] == '"' else ("bad", tok)
+        if k == "flt":
+            return ("flt", tok)
+        m = re.match(r"^(.*)\{(\.\.\.)?\}$", tok)
+        return ("struct", m.group(1)) if m else ("bad", tok)
+    except (ValueError, KeyError):
+        return ("bad", tok)
+
+
+def specs_of(case, fn, is_ret):
+    sp = case["specs"].get(fn) or case["specs"].get(str(fn))
+    if not sp:
+        return []
+    return ([sp["ret"]] if sp["ret"] else []) if is_ret else sp["args"]
+
+
+def canon_script_list(specs, js, is_ret):
+    """the script's args / retval (JSON text) -> list of canonical values, None for no key"""
+    try:
+        v = json.loads(js)
+    except ValueError:
+        return [("bad", js)]
+    if v is None:
+        return None
+    if is_ret:
+        v = [v]
+    if not isinstance(v, list):
+        return [("bad", js)]
+    if len(v) != len(specs):
+        return [("bad", "%d values for %d specs: %s" % (len(v), len(specs), js))]
+    return [canon_script_val(sp, x) for sp, x in zip(specs, v)]
+
+
+def canon_replay_list(specs, text):
+    if text is None or text == "":
+        return None
+    toks = text.split(", ")
+    if len(toks) != len(specs):
+        return [("bad", "%d values for %d specs: %s" % (len(toks), len(specs), text))]
+    return [canon_replay_val(sp, t) for sp, t in zip(specs, toks)]
+
+
+def canon_token_list(case, tok):
+    """a payload token of the model -> canonical values (with the specs the payload was written for)"""
+    if tok == 0:
+        return None
+    p = case["payloads"][tok - 1]
+    specs = specs_of(case, p["fn"], p["ret"])
+    return [canon_truth(sp, v) for sp, v in zip(specs, p["vals"])]
+
+
+def token_specs(case, tok):
+    p = case["payloads"][tok - 1]
+    return specs_of(case, p["fn"], p["ret"])
 
 
 # ------------------------------------------------------------------ data directory with argspec
 class ArgDir(D.DataDir):
     """DataDir whose `info` carries an argspec / retspec (ARG_SPEC info bit, ARGUMENT|RETVAL features)."""
+    specs = {}
 
     def info_bytes(self):
         b = super().info_bytes()
         hdr, body = bytearray(b[:40]), b[40:]
         feat, mask = struct.unpack_from("<QQ", hdr, 16)
         struct.pack_into("<QQ", hdr, 16, feat | 8 | 16, mask | (1 << 10))
-        a = ";".join("%s@%s" % (NAMES[f], "arg1,arg2" if k == "ii" else "arg1/s") for f, k in sorted(ARGSPEC.items()))
-        r = ";".join("%s@retval" % NAMES[f] for f in sorted(RETSPEC))
-        spec = ("argspec:lines=2\nargspec:%s\nretspec:%s\n" % (a, r)).encode()
+        a, r = [], []
+        for f in sorted(self.specs, key=int):
+            sp = self.specs[f]
+            if sp["args"]:
+                a.append("%s@%s" % (NAMES[int(f)], ",".join(
+                    ("fparg%d" % (i + 1)) if s.get("fp") else ("arg%d%s" % (i + 1, s["text"])) for i, s in enumerate(sp["args"]))))
+            if sp["ret"]:
+                r.append("%s@retval%s" % (NAMES[int(f)], sp["ret"]["text"]))
+        lines = []
+        if a:
+            lines.append("argspec:" + ";".join(a))
+        if r:
+            lines.append("retspec:" + ";".join(r))
+        spec = ("argspec:lines=%d\n%s\n" % (len(lines), "\n".join(lines))).encode()
         assert b"record_date:" in body
         return bytes(hdr) + body.replace(b"record_date:", spec + b"record_date:", 1)
+
+
+def gen_specs(rng, group):
+    """function -> {"args": [spec…], "ret": spec|None}"""
+    specs = {}
+    oct_ok = group == "oct"
+    for f in rng.sample(range(NF), rng.choice([2, 3, 4, 5])):
+        n = rng.choice([0, 1, 1, 2, 2, 3, 4, 6])
+        args = [rand_spec(rng, oct_ok) for _ in range(n)]
+        for s in args:
+            if s["kind"] == "flt" and s["size"] == 8 and rng.random() < 0.3:
+                s["fp"] = True                     # written as fpargN
+        ret = rand_spec(rng, oct_ok) if rng.random() < 0.6 else None
+        if group == "oct" and not any(s.get("fmt") == "o" for s in args):
+            args.insert(rng.randint(0, len(args)), {"kind": "int", "fmt": "o", "size": 4, "text": "/o32"})
+        if group == "argless" and not args:
+            args = [rand_spec(rng)]
+        if args or ret:
+            specs[f] = {"args": args, "ret": ret}
+    if group == "argless" and 1 not in specs:
+        specs[1] = {"args": [rand_spec(rng), rand_spec(rng)], "ret": None}
+    return specs
 
 
 # ------------------------------------------------------------------ case generator
@@ -97,10 +335,13 @@ def gen_task(rng, case, t, step, nrec, maxdepth, open_end, argless=0.0):
     """random properly nested walk starting at depth 0; records (typ, time, depth, fn, payload#)"""
     recs, stack = [], []
     pl = case["payloads"]
+    lua = case["lang"] == "lua"
 
-    def payload(kind):
-        vals = rand_vals(rng, kind)
-        pl.append((kind, vals))
+    def payload(fn, is_ret):
+        specs = specs_of(case, fn, is_ret)
+        if not case["args"] or not specs:
+            return 0
+        pl.append({"fn": fn, "ret": is_ret, "vals": [rand_value(rng, sp, lua) for sp in specs]})
         return len(pl)                  # 1-based token
     seen_payload = False
     while len(recs) < nrec:
@@ -114,26 +355,22 @@ def gen_task(rng, case, t, step, nrec, maxdepth, open_end, argless=0.0):
         t += step()
         if kind == "E":
             fn = stack[-1] if (stack and rng.random() < 0.2) else rng.randrange(NF)
-            p = 0
-            if case["args"] and fn in ARGSPEC:
-                if argless and seen_payload and ARGSPEC[fn] == "ii" and rng.random() < argless:
-                    p = 0               # an ENTRY without payload of a function that has an argspec
-                    case["argless"] += 1
-                else:
-                    p = payload(ARGSPEC[fn])
-                    seen_payload = seen_payload or ARGSPEC[fn] == "ii"
+            if argless and seen_payload and specs_of(case, fn, False) and rng.random() < argless:
+                p = 0                   # an ENTRY without payload of a function that has an argspec
+                case["argless"] += 1
+            else:
+                p = payload(fn, False)
+                seen_payload = seen_payload or p != 0
             recs.append(("E", t, d, fn, p))
             stack.append(fn)
         else:
             fn = stack.pop()
-            p = payload(RETSPEC[fn]) if (case["args"] and fn in RETSPEC and not argless) else 0
-            recs.append(("X", t, len(stack), fn, p))
+            recs.append(("X", t, len(stack), fn, 0 if argless else payload(fn, True)))
     if not open_end:
         while stack:
             t += step()
             fn = stack.pop()
-            p = payload(RETSPEC[fn]) if (case["args"] and fn in RETSPEC and not argless) else 0
-            recs.append(("X", t, len(stack), fn, p))
+            recs.append(("X", t, len(stack), fn, 0 if argless else payload(fn, True)))
     return recs, len(stack)
 
 
